@@ -28,7 +28,8 @@ impl Element {
 
 impl Hash for Element {
     fn hash<H: core::hash::Hasher>(&self, state: &mut H) {
-        self.inner.hash(state);
+        // Equal elements can have different inner curve points; their encoding is canonical.
+        self.vartime_compress().0.hash(state);
     }
 }
 
